@@ -110,9 +110,15 @@ OnlyUnkVector(s, r) ==
   Vector("sk_onlyunk", << SaNew("R", s, keys),
     UnprotectCaps("C13", "R", ~r, w, "nil", AcceptExp([InnerBase EXCEPT !.payloads = << >>])),
     UnprotectCaps("C13", "R", ~r, w, "pre", AcceptExp([InnerBase EXCEPT !.payloads = << >>])) >>)
-NInner == 12 + 16 + 3 + 2
+\* an AUTHENTIC datagram whose Encrypted payload is IV + checksum only (no ciphertext block at all): the cipher gets 16 octets
+NoBlockVector(s, r) ==
+  LET keys == KeysOf(s, 1) w == RefProtectRaw(InnerBase, 0, << >>, s, keys, r, PadFill(5, 16)) IN
+  Vector("sk_noblock", << SaNew("R", s, keys),
+    UnprotectCaps("C04", "R", ~r, w, "nil", [panic |-> FALSE, capdiff |-> FALSE, err |-> TRUE]),
+    UnprotectCaps("C04", "R", ~r, w, "pre", [panic |-> FALSE, capdiff |-> FALSE, err |-> TRUE]) >>)
+NInner == 12 + 16 + 3 + 3
 InnerVector(s, r, j) ==
-  IF j = 32 THEN OnlyUnkVector(s, r) ELSE IF j = 33 THEN ShortVector(s, r) ELSE
+  IF j = 32 THEN OnlyUnkVector(s, r) ELSE IF j = 33 THEN ShortVector(s, r) ELSE IF j = 34 THEN NoBlockVector(s, r) ELSE
   IF j > 28 THEN OuterVector(s, r, j - 28) ELSE
   LET c == InnerCase(j) keys == KeysOf(s, 1)
       w == RefProtectRaw(InnerBase, c.first, c.plain, s, keys, r, PadFill(j, 16)) IN
@@ -140,18 +146,21 @@ BigVector(s, r, j) ==
 SeqMsg(i) == Msg((i % 5) + 1, << [k |-> "NONCE", data |-> D((i * 7) % 23, i)], Rep("N") >>)
 \* every sixth message is preceded by a protect during which the random source fails (at its first, second or third read): that
 \* attempt gives an error -- or, if the failure is not reached, a datagram -- and the object goes on as if nothing had happened
-SeqFault(j) == [mode |-> "fail", seed |-> j, failat |-> (j \div 6) % 3]
+SeqFault(j, once) == [mode |-> IF once THEN "failonce" ELSE "fail", seed |-> j, failat |-> (j \div 6) % 3]
 RECURSIVE SeqSteps(_, _, _, _, _)
 SeqSteps(r, j, n, at, props) ==        \* at: number of steps emitted so far (the two SaNew included)
   IF j > n THEN << >>
-  ELSE LET fault == IF j % 6 = 0
-                      THEN << Step("protect", props[1], FALSE, [sa |-> "S", role |-> r, msg |-> SeqMsg(j + 100), rand |-> SeqFault(j)],
-                                   IF SeqFault(j).failat = 0 THEN [panic |-> FALSE, err |-> TRUE, faultok |-> TRUE] ELSE [panic |-> FALSE, faultok |-> TRUE]) >>
-                      ELSE << >>
-           k == at + Len(fault) IN
+  ELSE LET fstep(pi, once) ==
+             Step("protect", props[pi], FALSE, [sa |-> "S", role |-> r, msg |-> SeqMsg(j + 100), rand |-> SeqFault(j, once)],
+                  IF SeqFault(j, once).failat = 0 THEN [panic |-> FALSE, err |-> TRUE, faultok |-> TRUE] ELSE [panic |-> FALSE, faultok |-> TRUE])
+           \* (for each property the sequence serves: a failure of that one read only, and a source that stays broken from it on)
+           fault == IF j % 6 = 0 THEN << fstep(1, TRUE), fstep(2, TRUE), fstep(1, FALSE), fstep(2, FALSE) >> ELSE << >>
+           k == at + Len(fault)
+           \* every fifth message is also offered cut down to its 28 header octets (it still announces an Encrypted payload): refused
+           cut == IF j % 5 = 0 THEN << UnprotectStep(props[2], "R", ~r, Slice(Ref(k + 1, "wire"), 0, 28), IF j % 2 = 0 THEN "nil" ELSE "pre", RejectExp) >> ELSE << >> IN
        fault \o << ProtectStep(props[1], "S", r, SeqMsg(j), "system"),
                    UnprotectStep(props[2], "R", ~r, Ref(k + 1, "wire"), "nil", AcceptExp(SeqMsg(j))) >>
-             \o SeqSteps(r, j + 1, n, k + 2, props)
+             \o cut \o SeqSteps(r, j + 1, n, k + 2 + Len(cut), props)
 SeqVector(s, r, n) ==
   LET props == IF OnlySeq # "" THEN << OnlySeq, OnlySeq >> ELSE << "C06", "C01" >> IN
   Vector("sk_sequence", << SaNew("S", s, KeysOf(s, 1)), SaNew("R", s, KeysOf(s, 1)) >> \o SeqSteps(r, 1, n, 2, props))
